@@ -1,5 +1,179 @@
-// Vector kinds (C15, C20) -- filled in with the C15 check.
+// Vector kinds (C15, C16, C20): public API of ohsl::Vector only.
+//   vec.hist <v0> (<op> <args> ;)*      history on one vector: after every op its result (if any), P<class> if it panicked,
+//                                       then the state (size + elements) if the op is &mut or panicked [rat | f64 | cplx]
+//   vec.norms <v> <p>                   norm_1 norm_2 norm_p(p) norm_inf (last: panics on empty) [f64]
+//   vec.normlaws <u> <v> <c> <p>        the four norms of u, v, u+v, u*c                        [f64]
+//   vec.cx <v>                          conj, real, abs (Signed), norm_inf (last)              [cplx]
+//   vec.linspace <a> <b> <n>   vec.powspace <a> <b> <n> <p>   vec.scale_l <s> <v>              [f64]
+//   vec.ctor <n> <x> <v>                new/zeros/ones/empty/create/clone                      [any]
+//   vec.random <n>                      size and number of elements in [0,1)                   [f64]
+//   vec.sort_ord <ints>                 Vector<i64>::sort() (the Ord-bounded method), as rationals n/1
+//   vec.pardot <v> <w> <reps> <busy>    num_cpus::get() as seen in this process, dot_f64 <reps> times (with <busy>
+//                                       spinning background threads), then the sequential dot   [f64]
+use std::panic::{catch_unwind, AssertUnwindSafe};
+use std::sync::atomic::{AtomicBool, Ordering};
+use std::sync::Arc;
+use ohsl::{Cmplx, Vector};
 use crate::io::{Args, Out, Elt};
-pub fn run<T: Elt>(kind: &str, _a: &mut Args, _out: &mut Out) {
-    panic!("harness: unknown kind {}", kind);
+use crate::rat::Rat;
+
+fn same_v<T: Elt>(a: &Vector<T>, b: &Vector<T>) -> bool {
+    let mut o1 = Out::new(); let mut o2 = Out::new();
+    o1.v(a); o2.v(b);
+    o1.toks == o2.toks
+}
+fn check_same<T: Elt>(a: &Vector<T>, snap: &Vector<T>, what: &str) {
+    if !same_v(a, snap) { panic!("harness: operand mutated by {}", what); }
+}
+
+// what is not available for every element type
+pub trait VX: Elt {
+    fn resize(_v: &mut Vector<Self>, _n: usize) { panic!("harness: resize n/a for this element type"); }
+}
+impl VX for Rat { fn resize(v: &mut Vector<Rat>, n: usize) { v.resize(n); } }
+impl VX for f64 { fn resize(v: &mut Vector<f64>, n: usize) { v.resize(n); } }
+impl VX for Cmplx {}
+
+// the &mut self operations: the state is reported after them (and after every panic)
+const MUTATING: [&str; 18] = ["push", "push_front", "insert", "pop", "swap", "resize", "assign", "clear", "sort", "set",
+    "add_assign", "sub_assign", "add_assign_s", "sub_assign_s", "mul_assign_s", "div_assign_s", "clone_mut", "_"];
+
+fn step<T: VX>(v: &mut Vector<T>, op: &str, a: &mut Args, out: &mut Out) {
+    match op {
+        // ---- edits
+        "push" => { let x = a.s::<T>(); v.push(x); }
+        "push_front" => { let x = a.s::<T>(); v.push_front(x); }
+        "insert" => { let p = a.usize(); let x = a.s::<T>(); v.insert(p, x); }
+        "pop" => { let x = v.pop(); out.s(&x); }
+        "swap" => { let (i, j) = (a.usize(), a.usize()); v.swap(i, j); }
+        "resize" => { let n = a.usize(); T::resize(v, n); }
+        "assign" => { let x = a.s::<T>(); v.assign(x); }
+        "clear" => { v.clear(); }
+        "sort" => { v.sort_by(|x, y| x.partial_cmp(y).unwrap()); }
+        "find" => { let x = a.s::<T>(); let snap = v.clone(); let i = v.find(x); check_same(v, &snap, "find"); out.usize(i); }
+        "set" => { let i = a.usize(); let x = a.s::<T>(); v[i] = x; }
+        // ---- compound assignments
+        "add_assign" => { let w = a.v::<T>(); *v += w; }
+        "sub_assign" => { let w = a.v::<T>(); *v -= w; }
+        "add_assign_s" => { let x = a.s::<T>(); *v += x; }
+        "sub_assign_s" => { let x = a.s::<T>(); *v -= x; }
+        "mul_assign_s" => { let x = a.s::<T>(); *v *= x; }
+        "div_assign_s" => { let x = a.s::<T>(); *v /= x; }
+        // ---- value-returning (&self: operand must stay unchanged; owned and borrowed forms must agree)
+        "get" => { let i = a.usize(); out.s(&v[i]); }
+        "size" => { out.usize(v.size()); }
+        "sum" => { let snap = v.clone(); let s = v.sum(); check_same(v, &snap, "sum"); out.s(&s); }
+        "product" => { let s = v.product(); out.s(&s); }
+        "sum_slice" => { let (s, e) = (a.usize(), a.usize()); let snap = v.clone(); let r = v.sum_slice(s, e); check_same(v, &snap, "sum_slice"); out.s(&r); }
+        "product_slice" => { let (s, e) = (a.usize(), a.usize()); let r = v.product_slice(s, e); out.s(&r); }
+        "dot" => { let w = a.v::<T>(); let (s1, s2) = (v.clone(), w.clone()); let d = v.dot(&w);
+            check_same(v, &s1, "dot"); check_same(&w, &s2, "dot"); out.s(&d); }
+        "add" => { let w = a.v::<T>(); let (s1, s2) = (v.clone(), w.clone()); let r = &*v + &w;
+            check_same(v, &s1, "+"); check_same(&w, &s2, "+");
+            let r2 = v.clone() + &w; let r3 = v.clone() + w.clone();
+            if !same_v(&r, &r2) || !same_v(&r, &r3) { panic!("harness: owned/borrowed forms differ (vec +)"); }
+            out.v(&r); }
+        "sub" => { let w = a.v::<T>(); let (s1, s2) = (v.clone(), w.clone()); let r = &*v - &w;
+            check_same(v, &s1, "-"); check_same(&w, &s2, "-");
+            let r2 = v.clone() - &w; let r3 = v.clone() - w.clone();
+            if !same_v(&r, &r2) || !same_v(&r, &r3) { panic!("harness: owned/borrowed forms differ (vec -)"); }
+            out.v(&r); }
+        "neg" => { let r = -(v.clone()); out.v(&r); }
+        "scale" => { let x = a.s::<T>(); let r = v.clone() * x; out.v(&r); }
+        "div" => { let x = a.s::<T>(); let r = v.clone() / x; out.v(&r); }
+        "abs" => { let snap = v.clone(); let r = v.abs(); check_same(v, &snap, "abs"); out.v(&r); }
+        "norm_1" => { let snap = v.clone(); let r = v.norm_1(); check_same(v, &snap, "norm_1"); out.s(&r); }
+        "clone_mut" => { // clone independence
+            let x = a.s::<T>(); let snap = v.clone(); let mut c = v.clone();
+            c.assign(x); c.push(x); check_same(v, &snap, "clone.assign");
+            let csnap = c.clone(); v.push(x); check_same(&c, &csnap, "orig.push"); }
+        _ => panic!("harness: unknown vector op {}", op),
+    }
+}
+
+fn spin(n: usize, body: &mut dyn FnMut()) {
+    // run body while n background threads spin (scheduling noise for the threaded dot product)
+    let stop = Arc::new(AtomicBool::new(false));
+    let mut hs = Vec::new();
+    for _ in 0..n {
+        let st = stop.clone();
+        hs.push(std::thread::spawn(move || { let mut x = 0u64; while !st.load(Ordering::Relaxed) { x = x.wrapping_mul(6364136223846793005).wrapping_add(1); std::hint::black_box(x); } }));
+    }
+    let r = catch_unwind(AssertUnwindSafe(|| body()));
+    stop.store(true, Ordering::Relaxed);
+    for h in hs { let _ = h.join(); }
+    if let Err(e) = r { std::panic::resume_unwind(e); }
+}
+
+pub fn run<T: VX>(kind: &str, a: &mut Args, out: &mut Out) {
+    match kind {
+        "vec.hist" => {
+            let mut v = a.v::<T>();
+            out.v(&v);
+            while a.more() {
+                let op = a.word();
+                let r = catch_unwind(AssertUnwindSafe(|| step(&mut v, op, a, out)));
+                if r.is_err() {
+                    let msg = crate::LAST_PANIC.with(|p| p.borrow().clone());
+                    let cls = crate::classify(&msg);
+                    if cls == "harness" || cls == "ratovf" { panic!("{}", msg); }
+                    out.toks.push(format!("P{}", cls));
+                }
+                while a.more() { if a.word() == ";" { break; } }
+                if r.is_err() || MUTATING.contains(&op) { out.v(&v); }
+            }
+        }
+        "vec.ctor" => {
+            let n = a.usize(); let x = a.s::<T>(); let w = a.vec_std::<T>();
+            out.v(&Vector::<T>::new(n, x)); out.v(&Vector::<T>::zeros(n)); out.v(&Vector::<T>::ones(n));
+            let e = Vector::<T>::empty(); out.v(&e);
+            let c = Vector::<T>::create(w.clone()); out.v(&c); out.usize(c.size());
+            let d = c.clone(); out.v(&d);
+            out.boolean(c == d);
+        }
+        "vec.norms" => {
+            let v = a.v::<f64>(); let p = a.f64(); let snap = v.clone();
+            out.f(v.norm_1()); out.f(v.norm_2()); out.f(v.norm_p(p));
+            check_same(&v, &snap, "norms");
+            out.f(v.norm_inf());
+        }
+        "vec.normlaws" => {
+            let u = a.v::<f64>(); let v = a.v::<f64>(); let c = a.f64(); let p = a.f64();
+            let s = &u + &v; let cu = u.clone() * c;
+            for w in [&u, &v, &s, &cu] { out.f(w.norm_1()); out.f(w.norm_2()); out.f(w.norm_p(p)); out.f(w.norm_inf()); }
+        }
+        "vec.cx" => {
+            let v = a.v::<Cmplx>(); let snap = v.clone();
+            out.v(&v.conj()); out.v(&v.real()); out.v(&v.abs());
+            check_same(&v, &snap, "conj/real/abs");
+            out.f(v.norm_inf());
+        }
+        "vec.linspace" => { let (x, y) = (a.f64(), a.f64()); let n = a.usize(); out.v(&Vector::<f64>::linspace(x, y, n)); }
+        "vec.powspace" => { let (x, y) = (a.f64(), a.f64()); let n = a.usize(); let p = a.f64(); out.v(&Vector::<f64>::powspace(x, y, n, p)); }
+        "vec.scale_l" => { let s = a.f64(); let v = a.v::<f64>(); let r = s * v.clone(); out.v(&r); let r2 = v * s; out.v(&r2); }
+        "vec.random" => {
+            let n = a.usize(); let v = Vector::<f64>::random(n);
+            out.usize(v.size());
+            let mut inside = 0; for i in 0..v.size() { if v[i] >= 0.0 && v[i] < 1.0 { inside += 1; } }
+            out.usize(inside);
+        }
+        "vec.sort_ord" => {
+            let xs: Vec<i64> = a.strs().into_iter().map(|t| t.parse().expect("harness: bad int")).collect();
+            let mut v = Vector::<i64>::create(xs);
+            v.sort();
+            out.usize(v.size());
+            for i in 0..v.size() { out.q(Rat::int(v[i] as i128)); }
+        }
+        "vec.pardot" => {
+            let v = a.v::<f64>(); let w = a.v::<f64>(); let reps = a.usize(); let busy = a.usize();
+            let (sv, sw) = (v.clone(), w.clone());
+            out.usize(num_cpus::get());
+            let mut rs: Vec<f64> = Vec::new();
+            spin(busy, &mut || { for _ in 0..reps { rs.push(v.dot_f64(&w)); } });
+            for r in rs { out.f(r); }
+            check_same(&v, &sv, "dot_f64"); check_same(&w, &sw, "dot_f64");
+            out.f(v.dot(&w));
+        }
+        _ => panic!("harness: unknown kind {}", kind),
+    }
 }
